@@ -132,6 +132,12 @@ fn scenario(w: &mut World, ctx: &RunCtx, states: &mut Vec<u64>) -> Result<(), Vi
             c.extra_password = Some("some-other-password".to_string());
             w.count("c18_private_key_with_leftover_password");
         }
+        // a public-key entry of another key pair left over next to a password (a configuration that went from a key
+        // pair to the shared password) changes neither the identity nor whom the node trusts by default
+        if c.use_password && w.keys[c.key].password.is_some() && w.ch.chance("leftover_public_key", 200) {
+            c.stale_public_key = Some(w.ch.choose("leftover_public_key_of", nkeys as u32) as usize);
+            w.count("c18_password_with_leftover_public_key");
+        }
         let mask = w.ch.choose("trusted_mask", 1 << nkeys);
         c.trusted = (0..nkeys).filter(|k| mask & (1 << k) != 0).collect();
         c.tick_phase_ms = w.ch.choose("tick_phase", 1000) as u64;
